@@ -142,6 +142,9 @@ struct Event {
     int per_method = 0;
     int fresh_gen = 0; // a new generator object for this call (else the one
                        // that lives as long as the simulated process)
+    // update (with encode) / offsets: also hand the generated text to a real
+    // compiler for a syntax check (1: g++, 2: clang++)
+    int compile = 0;
     int stale = 0;
     int ppos = 0;
     long long pdelta = 0;
